@@ -72,7 +72,10 @@ def expr_poly(e: ast.expr) -> Poly:
         idx = e.slice.elts if isinstance(e.slice, ast.Tuple) else [e.slice]
         return Poly.fn("index", expr_poly(e.value), *[S_(norm_text(i)) if isinstance(i, ast.Slice) else expr_poly(i) for i in idx])
     if isinstance(e, ast.Compare) and len(e.ops) == 1:
-        return Poly.fn("cmp:" + type(e.ops[0]).__name__, expr_poly(e.left), expr_poly(e.comparators[0]))
+        a, b, op = e.left, e.comparators[0], type(e.ops[0]).__name__
+        if op in ("Gt", "GtE"):  # canonical orientation
+            a, b, op = b, a, {"Gt": "Lt", "GtE": "LtE"}[op]
+        return Poly.fn("cmp:" + op, expr_poly(a), expr_poly(b))
     return Poly.atom(("s", "<" + norm_text(e) + ">"))
 
 
@@ -127,8 +130,13 @@ def rule_solve(ctx, p: Project):
     warm, cold = vals.get(True), vals.get(False)
     ok = warm is not None and cold is not None
     if ok:
-        ok = isinstance(warm, ast.Compare) and isinstance(warm.ops[0], ast.Gt) and norm_text(warm.comparators[0]) in ("0", "0.0") and isinstance(warm.left, ast.Call) \
-             and norm_text(warm.left.func).endswith("linalg.solve") and [norm_text(a) for a in warm.left.args] == ["curvature_reg_matrix", "data_vector"]
+        sol = None
+        if isinstance(warm, ast.Compare) and len(warm.ops) == 1:
+            if isinstance(warm.ops[0], ast.Gt) and norm_text(warm.comparators[0]) in ("0", "0.0"):
+                sol = warm.left
+            elif isinstance(warm.ops[0], ast.Lt) and norm_text(warm.left) in ("0", "0.0"):
+                sol = warm.comparators[0]
+        ok = isinstance(sol, ast.Call) and norm_text(sol.func).endswith("linalg.solve") and [norm_text(a) for a in sol.args] == ["curvature_reg_matrix", "data_vector"]
         ok = ok and isinstance(cold, ast.Call) and norm_text(cold.func) in ("np.zeros", "numpy.zeros") and norm_text(cold.args[0]) == "0"
     ctx.ob(rule, g.key + ":warm start", ok, where=g, node=pis[0] if pis else g.node, construct="; ".join(norm_text(n)[:70] for n in pis),
            message="the warm start must be the positive set of the unconstrained solution of the same system (and empty when the setting is off)")
